@@ -347,6 +347,12 @@ func faultPlans(l *Log, start Pos, pacing string, stride int, r *rand.Rand) []At
 		b.End = "idle"
 		b.CancelAtTx = k
 		out = append(out, b)
+		// the caller cancels while the handler of transaction k is still busy; the handler finishes its work and accepts
+		c := base()
+		c.End = "idle"
+		c.CancelAtTx = k
+		c.ReleaseDelayMs = 30
+		out = append(out, c)
 	}
 	for name := range l.Tables() {
 		a := base()
@@ -405,6 +411,13 @@ func modeC04(e *Env) {
 		}
 		cfg := cfgs[e.R.Intn(len(cfgs))]
 		l := GenLog(e.R, cfg, gp, nil)
+		if li%3 == 0 {
+			// a long first file and a short second one: a failure late in the first file makes the next attempt start from
+			// a large offset and cross into a file whose offsets start again at 4
+			g2 := gp
+			g2.SimpleCols = true
+			l = logFromAbstract(e.R, cfg, g2, []interface{}{"txxid", "txxid", "txcommit", "autorow", "rotate", "txxid", "ddl", "txxid"})
+		}
 		if li%3 == 1 {
 			// an empty file name is a valid position too (the master takes it as its first binlog): the library keeps
 			// the name it was given until a real rotation
